@@ -176,26 +176,33 @@ def make_ctor(height, prop="C19"):
 
 
 @register("stack_chain")
-def make_chain(height, nvars, heur, shaving=False, prop="C19"):
+def make_chain(height, nvars, heur, shaving=False, prop="C19", fixed_width=None):
     """nvars unconstrained variables, each [a_i, b_i] with 0 <= b_i - a_i <= 1 symbolic: needed depth is symbolic"""
 
     def body(E):
         H, BS, CA, SH, Problem = _ns()
         lo = [z3.Int(f"lo{i}") for i in range(nvars)]
         w = [z3.Int(f"w{i}") for i in range(nvars)]
-        for i in range(nvars):
+        for i in range(nvars if fixed_width is None else 0):
             # mid_value / min_cost push two levels only for an interior value: width 2 (three values)
             E.solver.add(lo[i] >= -5, lo[i] <= 5, w[i] >= 0, w[i] <= (2 if heur in ("mid_value", "min_cost") else 1))
+            if fixed_width is not None:  # tall stacks: one concrete chain (a single path)
+                E.solver.add(lo[i] == 0, w[i] == fixed_width)
             if heur == "min_cost":  # contract: the cost table covers the values {0, 1, 2}; cheapest value interior
                 E.solver.add(lo[i] == 0)
-        pb = Problem([(SymInt(lo[i]), SymInt(lo[i] + w[i])) for i in range(nvars)])
+        if fixed_width is not None:
+            pb = Problem([(0, fixed_width)] * nvars)  # tall stacks: one concrete chain
+        else:
+            pb = Problem([(SymInt(lo[i]), SymInt(lo[i] + w[i])) for i in range(nvars)])
         sols = []
         outcome = None
         try:
             s = BS.BacktrackSolver(pb, consistency_alg_idx=CA.CONSISTENCY_ALG_SHAVING if shaving else CA.CONSISTENCY_ALG_BC, dom_heuristic_idx=getattr(H, "DOM_HEURISTIC_" + heur.upper()), dom_heuristic_params=[[2, 1, 2]] * nvars if heur == "min_cost" else [[]], stack_max_height=height)
             for x in s.solve():
                 sols.append(x.tolist())
-            outcome = "enumerated"
+                if fixed_width is not None:
+                    break
+            outcome = "enumerated" if fixed_width is None else "first-solution"
         except Obligation as o:
             outcome = "obligation:" + o.kind
             m = o.model
@@ -203,6 +210,10 @@ def make_chain(height, nvars, heur, shaving=False, prop="C19"):
         except Exception as ex:  # noqa
             outcome = "refused:" + type(ex).__name__
         E.acc.count(outcome)
+        if prop == "C15" and core.FLAGS.hazards:
+            m = (E.model() if E.check() else None) if fixed_width is None else None
+            E.acc.count("mode-hazard-paths")
+            E.acc.violation(dict(prop="C15", kind="mode-hazard", site="hazard:" + str(core.FLAGS.hazards[0].get("where"))[:80], cls=None, harness="stack", benign_if_not_reproduced=True, modes=["jit"], hazard=core.FLAGS.hazards[0], hazards=len(core.FLAGS.hazards), height=height, nvars=nvars, heuristic=heur, shaving=shaving, widths=([fixed_width] * nvars if fixed_width is not None else ([E.ev(m, x) for x in w] if m is not None else None))))
         if outcome == "enumerated":
             # exactly the cartesian product, each once
             t = [z3.Int(f"t{i}") for i in range(nvars)]
